@@ -170,3 +170,58 @@ def run_c18(ctx, rep):
 
 def run_c06(ctx, rep):
     run_rule(ctx, rep, "C06.a", lambda b: "chunker::" in b.path)
+
+
+# ---- sizes that come from storage, not from authenticated repository data (C08.l / C05.h) -----------------------------
+# The listed size of a pack file, the header-size guess handed in with it, and the 4-byte trailer length field of a pack are
+# NOT covered by any MAC: truncation, extension or a flipped bit changes them freely. Every trapping operation they reach
+# must be proved safe; otherwise the reader panics (debug) or wraps (release) instead of reporting the damaged pack.
+STORAGE_TARGETS = [
+    # (function, argument indexes that carry storage-derived sizes, callees whose result is storage-derived, description)
+    (r"^rustic_core::repofile::packfile::PackHeader::from_file$", {3, 4}, r"PackHeaderLength::to_u32$",
+     "the listed pack size, the header-size guess and the decoded trailer length field"),
+]
+
+
+def run_storage_sizes(ctx, rep, rule):
+    rep.rule(rule, "sizes taken from storage (listed pack size, header-size guess, trailer length field) reach no operation that can trap or wrap")
+    prog = ctx.prog
+    n_t = 0
+    for rx, argset, callrx, desc in STORAGE_TARGETS:
+        b = prog.find1(rx)
+        a = interval.Analysis(prog, b, sources=_src_args(argset), call_sources=re.compile(callrx))
+        a.run()
+        ordn = {}
+        seen_src = any("callee" in t and re.search(callrx, callee(t)) for _, t in b.calls())
+        rep.require(rule, f"{fn_key(b)}/trailer-length-decoded", seen_src, where=b.loc(), what=f"{fn_key(b)} decodes the trailer length field ({callrx})")
+        for (bb, kind), s in sorted(a.sinks.items()):
+            if not s.tainted:
+                continue
+            n_t += 1
+            ops = getattr(s, "ops", None)
+            shape = _shape(ops) if ops else str(ordn.get(kind, 0) + 1)
+            ordn[kind] = ordn.get(kind, 0) + 1
+            rep.check(rule, f"{fn_key(b)}/{kind}/{shape}", s.ok, where=span_str(s.span),
+                      what=f"{fn_key(b)}: {kind} ({s.detail}) cannot trap for any listed size / trailer value" if s.ok else
+                           f"{fn_key(b)}: {kind} with an operand derived from {desc} can trap: {s.detail} - a truncated or damaged pack panics (debug) or wraps to a bogus offset (release) instead of being reported")
+        rep.count(f"{rule}: sinks in {fn_key(b)} (storage-tainted/all)", f"{sum(1 for s in a.sinks.values() if s.tainted)}/{len(a.sinks)}")
+    rep.floor(rule, "storage-tainted panicking operations examined", n_t, 2)
+
+
+def _shape(ops):
+    """position-free description of the operands of a trapping operation (parameters, constants, callees)"""
+    def one(e, d=0):
+        if not isinstance(e, tuple) or d > 3:
+            return "?"
+        if e[0] == "const":
+            return str(e[1])
+        if e[0] == "call":
+            return e[1].rsplit("::", 1)[-1] + "()"
+        if e[0] == "path":
+            root = e[1]
+            base = f"{root[0]}{root[1]}" if isinstance(root, tuple) and len(root) > 1 else str(root)
+            return base + "".join("." + str(f) for f in e[2])
+        if e[0] == "bin":
+            return "(" + one(e[2], d + 1) + e[1].replace("WithOverflow", "") + one(e[3], d + 1) + ")"
+        return e[0]
+    return "~".join(one(e) for e in ops)
